@@ -36,14 +36,76 @@ import (
 // child: the server
 // ---------------------------------------------------------------------------
 
-type plainImpl struct{}
+// plainImpl: hello("wait") does not return before the harness opens the gate.
+// The gate is driven through the child's stdin / stdout: nothing of it travels
+// through the queues under test.
+type plainImpl struct{ name string }
 
 func (p *plainImpl) Activate(activation bus.Activation, helper pong.PingPongSignalHelper) error {
 	return nil
 }
-func (p *plainImpl) OnTerminate()                   {}
-func (p *plainImpl) Hello(a string) (string, error) { return "re:" + a, nil }
-func (p *plainImpl) Ping(a string) error            { return nil }
+func (p *plainImpl) OnTerminate() {}
+func (p *plainImpl) Hello(a string) (string, error) {
+	if a == "wait" {
+		theGate.wait(p.name)
+	}
+	return "re:" + a, nil
+}
+func (p *plainImpl) Ping(a string) error { return nil }
+
+type gate struct {
+	mu   sync.Mutex
+	ch   chan struct{} // closed: the gate is open
+	open bool
+	out  sync.Mutex
+}
+
+// the gate starts open: hello("wait") is an ordinary call until the harness closes it
+var theGate = func() *gate {
+	g := &gate{ch: make(chan struct{}), open: true}
+	close(g.ch)
+	return g
+}()
+
+func (g *gate) say(s string) {
+	g.out.Lock()
+	fmt.Println(s)
+	g.out.Unlock()
+}
+
+func (g *gate) wait(name string) {
+	g.mu.Lock()
+	ch, open := g.ch, g.open
+	g.mu.Unlock()
+	if open {
+		return
+	}
+	g.say("entered " + name)
+	<-ch
+}
+
+// shut: calls of the slow method that arrive from now on wait.
+func (g *gate) shut() {
+	g.mu.Lock()
+	if g.open {
+		g.ch = make(chan struct{})
+		g.open = false
+	}
+	g.mu.Unlock()
+	g.say("closed")
+}
+
+// release: every waiting call returns; later ones do not wait (a slow call that was still in a queue when the
+// gate opened must not find it closed again).
+func (g *gate) release() {
+	g.mu.Lock()
+	if !g.open {
+		close(g.ch)
+		g.open = true
+	}
+	g.mu.Unlock()
+	g.say("released")
+}
 
 type serveInfo struct {
 	Ready bool   `json:"ready"`
@@ -53,6 +115,7 @@ type serveInfo struct {
 }
 
 // c12-serve <dir>: starts the server, prints one JSON line, serves until stdin is closed.
+// stdin: "close" shuts the gate of the slow method, "release" opens it (answers on stdout: "closed", "released").
 func cmdC12Serve(args []string) {
 	// a hostile count can make a decoder ask for tens of gigabytes: the request must fail, not be served
 	lim := syscall.Rlimit{Cur: 6 << 30, Max: 6 << 30}
@@ -62,17 +125,25 @@ func cmdC12Serve(args []string) {
 	if err != nil {
 		hlib.Fatal("server: %v", err)
 	}
-	svc, err := srv.NewService("pong", pong.PingPongObject(&plainImpl{}))
+	svc, err := srv.NewService("pong", pong.PingPongObject(&plainImpl{"p1"}))
 	if err != nil {
 		hlib.Fatal("service: %v", err)
 	}
-	obj2, err := svc.Add(pong.PingPongObject(&plainImpl{}))
+	obj2, err := svc.Add(pong.PingPongObject(&plainImpl{"p2"}))
 	if err != nil {
 		hlib.Fatal("object: %v", err)
 	}
 	b, _ := json.Marshal(serveInfo{true, addr, svc.ServiceID(), obj2})
-	fmt.Println(string(b))
-	io.Copy(io.Discard, os.Stdin)
+	theGate.say(string(b))
+	in := bufio.NewScanner(os.Stdin)
+	for in.Scan() {
+		switch strings.TrimSpace(in.Text()) {
+		case "close":
+			theGate.shut()
+		case "release":
+			theGate.release()
+		}
+	}
 	os.Exit(0)
 }
 
@@ -88,13 +159,15 @@ type hostOp struct {
 }
 
 type hostStep struct {
-	Op  hostOp `json:"op"`
-	Ans string `json:"ans"`
+	Op  hostOp   `json:"op"`
+	Ans string   `json:"ans"`
+	Srv []string `json:"srv"` // probe_others: the objects a fresh client asks in the middle of the sequence
 }
 
 type hostExpect struct {
 	Up      bool     `json:"up"`
 	Serving []string `json:"serving"`
+	Gone    []string `json:"gone"` // objects a terminate request has named
 }
 
 type hostCase struct {
@@ -110,6 +183,8 @@ type child struct {
 	stderr *bytes.Buffer
 	exited chan struct{}
 	victim *rawClient
+	lines  chan string // what the child says after its first line ("entered <object>", "released")
+	gated  bool        // a slow call may be inside the method
 }
 
 const victimUID = 4242
@@ -127,11 +202,26 @@ func startChild() *child {
 	if err := c.cmd.Start(); err != nil {
 		hlib.Fatal("start server: %v", err)
 	}
-	line, err := bufio.NewReader(out).ReadString('\n')
+	rdr := bufio.NewReader(out)
+	line, err := rdr.ReadString('\n')
 	if err != nil || json.Unmarshal([]byte(line), &c.info) != nil || !c.info.Ready {
 		hlib.Fatal("server child did not start: %v %s %s", err, line, c.stderr.String())
 	}
-	go func() { c.cmd.Wait(); close(c.exited) }()
+	c.lines = make(chan string, 64)
+	go func() {
+		for {
+			l, err := rdr.ReadString('\n')
+			if err != nil {
+				break
+			}
+			select {
+			case c.lines <- strings.TrimSpace(l):
+			default:
+			}
+		}
+		c.cmd.Wait()
+		close(c.exited)
+	}()
 	// a cooperative subscriber on a connection of its own
 	v, err := dialRaw(c)
 	if err != nil {
@@ -146,6 +236,44 @@ func startChild() *child {
 	}
 	c.victim = v
 	return c
+}
+
+// await: the child says `what` within d.
+func (c *child) await(what string, d time.Duration) bool {
+	t := time.After(d)
+	for {
+		select {
+		case l := <-c.lines:
+			if l == what {
+				return true
+			}
+		case <-c.exited:
+			return false
+		case <-t:
+			return false
+		}
+	}
+}
+
+// shut closes the gate of the slow method (through the child's stdin, not through the server).
+func (c *child) shut() bool {
+	if c.gated {
+		return true
+	}
+	c.gated = true
+	if _, err := io.WriteString(c.stdin, "close\n"); err != nil {
+		return false
+	}
+	return c.await("closed", 10*time.Second)
+}
+
+// release opens the gate of the slow method (through the child's stdin, not through the server).
+func (c *child) release() bool {
+	c.gated = false
+	if _, err := io.WriteString(c.stdin, "release\n"); err != nil {
+		return false
+	}
+	return c.await("released", 10*time.Second)
 }
 
 func (c *child) alive() bool {
@@ -191,7 +319,8 @@ type rawClient struct {
 	frames map[uint32]*net.Message
 	eof    bool
 	nextID uint32
-	noRead bool
+	paused bool // the client does not read its socket any more
+	wedged bool // a write to the server timed out: the server does not read this connection any more
 }
 
 func dialRaw(c *child) (*rawClient, error) {
@@ -212,6 +341,9 @@ func dialRaw(c *child) (*rawClient, error) {
 				r.mu.Unlock()
 				return
 			}
+			for r.paused { // stop_reading: the client leaves what the server sends in the socket
+				r.cond.Wait()
+			}
 			r.frames[m.Header.ID] = m
 			r.cond.Broadcast()
 			r.mu.Unlock()
@@ -227,12 +359,29 @@ func dialRaw(c *child) (*rawClient, error) {
 }
 
 func (r *rawClient) send(typ uint8, svc, obj, act uint32, payload []byte) uint32 {
-	r.nextID += 2
-	id := r.nextID
-	m := net.NewMessage(net.NewHeader(typ, svc, obj, act, id), payload)
+	return r.sendMany(1, typ, svc, obj, act, payload)
+}
+
+// sendMany writes n copies of a request (fresh message ids) with ONE write: a flood must not depend on how many
+// small packets the socket takes.  A server that has stopped reading this connection is not waited for more than
+// once: what the other clients get is the verdict, not what becomes of the hostile client's own bytes.
+func (r *rawClient) sendMany(n int, typ uint8, svc, obj, act uint32, payload []byte) uint32 {
+	var b bytes.Buffer
+	for i := 0; i < n; i++ {
+		r.nextID += 2
+		m := net.NewMessage(net.NewHeader(typ, svc, obj, act, r.nextID), payload)
+		m.Write(&b)
+	}
+	if r.wedged {
+		return r.nextID
+	}
 	r.conn.SetWriteDeadline(time.Now().Add(5 * time.Second))
-	m.Write(r.conn)
-	return id
+	if _, err := r.conn.Write(b.Bytes()); err != nil {
+		if ne, ok := err.(gonet.Error); ok && ne.Timeout() {
+			r.wedged = true
+		}
+	}
+	return r.nextID
 }
 
 // wait returns "reply", "error", "closed" or "timeout".
@@ -359,7 +508,7 @@ func probe(c *child, serving []string, d time.Duration) ([]probeResult, bool) {
 		}
 		return res, false
 	}
-	defer r.conn.Close()
+	defer func() { r.conn.Close() }()
 	for _, t := range serving {
 		svc, obj := c.target(t)
 		var ans string
@@ -371,6 +520,12 @@ func probe(c *child, serving []string, d time.Duration) ([]probeResult, bool) {
 		res = append(res, probeResult{t, ans})
 		if ans != "reply" {
 			ok = false
+			// the request that got no answer may sit in front of the next one in the queues of this
+			// connection: the other objects are asked on a connection of their own
+			if r2, err := dialRaw(c); err == nil {
+				r.conn.Close()
+				r = r2
+			}
 		}
 	}
 	return res, ok
@@ -395,16 +550,56 @@ func crashClass(reason string) string {
 	return "c12/crash"
 }
 
-// runHostile plays one sequence on a new connection; returns what the hostile client saw.
-func runHostile(c *child, hc *hostCase, seqNo int, rng *rand.Rand, floodAuth int) ([]string, error) {
+// hostileRun: what one replay leaves behind for the verdict.
+type hostileRun struct {
+	seen    []string
+	conns   map[string]*rawClient // the connections of the hostile client ("A", "B")
+	vcalls  []victimCall          // calls of the cooperative client whose answers are due once the gate is open
+	midFail []probeResult         // probe_others: objects outside the slow method that did not answer
+	slowed  bool
+	deaf    bool // a connection of the hostile client has stopped reading
+}
+
+type victimCall struct {
+	target string
+	id     uint32
+}
+
+func (h *hostileRun) closeAll() {
+	for _, r := range h.conns {
+		r.conn.Close()
+		r.mu.Lock()
+		r.paused = false
+		r.cond.Broadcast()
+		r.mu.Unlock()
+	}
+}
+
+// runHostile plays one sequence on new connections; returns what the hostile client saw.
+func runHostile(c *child, hc *hostCase, seqNo int, rng *rand.Rand, floodAuth int, tb time.Duration) (*hostileRun, error) {
+	h := &hostileRun{conns: map[string]*rawClient{}}
 	r, err := dialRaw(c)
 	if err != nil {
-		return nil, err
+		return h, err
 	}
-	defer r.conn.Close()
-	seen := []string{}
+	h.conns["A"] = r
+	conn := func(x string) *rawClient {
+		if x != "B" {
+			return r
+		}
+		if h.conns["B"] == nil {
+			rb, err := dialRaw(c)
+			if err != nil {
+				return r
+			}
+			h.conns["B"] = rb
+		}
+		return h.conns["B"]
+	}
 	fresh := uint64(1000000 + seqNo*100)
 	last := map[string]uint64{}
+	many := map[string][]uint64{}
+	flooded := map[string]bool{} // connections with a flood in the queues behind a slow call
 	short := 3 * time.Second
 	for _, st := range hc.H {
 		op := st.Op
@@ -475,14 +670,13 @@ func runHostile(c *child, hc *hostCase, seqNo int, rng *rand.Rand, floodAuth int
 			basic.WriteUint32(obj+13, &b)
 			ans = r.wait(r.send(net.Call, svc, obj, 3, b.Bytes()), short)
 		case "flood_calls":
-			for i := 0; i < 25; i++ {
-				r.send(net.Call, svc, obj, 100, strPayload("flood"))
-			}
+			conn(op.X).sendMany(op.A, net.Call, svc, obj, 100, strPayload("flood"))
+			flooded[op.X] = flooded[op.X] || h.slowed
 		case "flood_auth":
 			var b bytes.Buffer
 			bus.WriteCapabilityMap(bus.ClientCap("u", "t"), &b)
-			for i := 0; i < floodAuth; i++ {
-				r.send(net.Call, 0, 0, 8, b.Bytes())
+			for i := 0; i < floodAuth; i += 100 {
+				r.sendMany(100, net.Call, 0, 0, 8, b.Bytes())
 			}
 		case "disconnect":
 			m := net.NewMessage(net.NewHeader(net.Call, svc, obj, 100, 9), strPayload("a long enough payload"))
@@ -493,13 +687,81 @@ func runHostile(c *child, hc *hostCase, seqNo int, rng *rand.Rand, floodAuth int
 				cut = net.HeaderSize + 5
 			}
 			r.conn.Write(b.Bytes()[:cut])
+			h.closeAll() // the client goes away in the middle of a frame
+
+		// saturation: nothing below waits for an answer of the server
+		case "slow":
+			// the method body waits for the gate: from now on the object's mailbox goroutine is busy
+			c.shut()
+			h.slowed = true
+			conn(op.X).send(net.Call, svc, obj, 100, strPayload("wait"))
+			// normally a matter of microseconds; a slow call that sits behind a flood of the same connection
+			// does not get in before the release: not waited for (nothing is demanded of the hostile client's requests)
+			if !flooded[op.X] {
+				c.await("entered "+op.T, 2*time.Second)
+			}
+		case "flood_posts":
+			conn(op.X).sendMany(op.A, net.Post, svc, obj, 101, strPayload("p"))
+			flooded[op.X] = flooded[op.X] || h.slowed
+		case "reg_many":
+			rc := conn(op.X)
+			for i := 0; i < op.A; i++ {
+				fresh++
+				many[op.T+op.X] = append(many[op.T+op.X], fresh)
+				rc.send(net.Call, svc, obj, 0, regPayload(obj, 102, fresh))
+			}
+		case "unreg_many":
+			rc := conn(op.X)
+			uids := many[op.T+op.X]
+			many[op.T+op.X] = nil
+			for i := len(uids); i < op.A; i++ {
+				uids = append(uids, uint64(777000+i)) // users nobody registered
+			}
+			for _, uid := range uids {
+				rc.send(net.Call, svc, obj, 1, regPayload(obj, 102, uid))
+			}
+		case "terminate":
+			// terminate of the object itself: its documented purpose is the removal of exactly this object
+			var b bytes.Buffer
+			basic.WriteUint32(obj, &b)
+			conn(op.X).send(net.Call, svc, obj, 3, b.Bytes())
+		case "victim_call":
+			// the cooperative client, on its own connection, calls while the hostile one saturates
+			if op.T == "dir" {
+				h.vcalls = append(h.vcalls, victimCall{op.T, c.victim.send(net.Call, svc, obj, 101, []byte{})}) // services()
+			} else {
+				h.vcalls = append(h.vcalls, victimCall{op.T, c.victim.send(net.Call, svc, obj, 100, strPayload("victim"))})
+			}
+		case "probe_others":
+			// while the gate is closed: the objects outside the slow method answer a fresh client
+			pr, ok := probe(c, st.Srv, tb)
+			if !ok && c.alive() {
+				pr, ok = probe(c, st.Srv, tb)
+			}
+			if !ok {
+				h.midFail = append(h.midFail, pr...)
+			}
+		case "release":
+			c.release()
+
+		// a client that does not read what the server sends to it
+		case "stop_reading":
+			rc := conn(op.X)
+			rc.mu.Lock()
+			rc.paused = true
+			rc.mu.Unlock()
+			h.deaf = true
+		case "flood_big":
+			// calls whose replies (the argument is sent back) are larger than what a socket buffers
+			conn(op.X).sendMany(op.A, net.Call, svc, obj, 100, strPayload(strings.Repeat("x", 60000)))
+			time.Sleep(100 * time.Millisecond) // let the replies reach the socket
 		}
-		seen = append(seen, ans)
+		h.seen = append(h.seen, ans)
 		if !c.alive() {
 			break
 		}
 	}
-	return seen, nil
+	return h, nil
 }
 
 // c12-run <cases.ndjson> [floodAuth]
@@ -523,6 +785,7 @@ func cmdC12Run(args []string) {
 	seqNo := 0
 	restarts := 0
 	failing := 0
+	saturated := 0
 	answers := map[string]int{}
 	hlib.ReadLines(args[0], func(line []byte) {
 		if failing >= 40 {
@@ -537,7 +800,14 @@ func cmdC12Run(args []string) {
 		}
 		seqNo++
 		res.Evaluations++
-		seen, err := runHostile(c, &hc, seqNo, rng, floodAuth)
+		h, err := runHostile(c, &hc, seqNo, rng, floodAuth, tb)
+		seen := h.seen
+		removes := false
+		for _, st := range hc.H {
+			if st.Op.K == "terminate" {
+				removes = true
+			}
+		}
 		fail := func(class, detail string, extra map[string]interface{}) {
 			if !strings.HasPrefix(class, "c12/crash") {
 				failing++ // a hang costs two probe time-outs: stop early when they pile up; a crash is cheap
@@ -562,7 +832,25 @@ func cmdC12Run(args []string) {
 				answers[hc.H[i].Ans+"->"+a]++
 			}
 		}
+		// saturation: the gate is opened at the latest now; only from here on is anything demanded of the slow
+		// object: the calls the cooperative client made meanwhile are answered ...
+		if c.gated {
+			c.release()
+		}
+		gone := map[string]bool{}
+		for _, t := range hc.E.Gone {
+			gone[t] = true
+		}
+		unanswered := []string{}
+		for _, v := range h.vcalls {
+			a := c.victim.wait(v.id, 2*tb)
+			if a != "reply" && !(a == "error" && gone[v.target]) {
+				unanswered = append(unanswered, v.target+":"+a)
+			}
+		}
+		h.closeAll()
 		time.Sleep(2 * time.Millisecond) // let the server notice the disconnection
+		// ... and a fresh client is served by every object no terminate request has named
 		pr, ok := probe(c, hc.E.Serving, tb)
 		if !ok && c.alive() {
 			// a busy machine ? an object that hangs stays hung: ask again
@@ -591,17 +879,51 @@ func cmdC12Run(args []string) {
 					hung = append(hung, p.Target+":"+p.Answer)
 				}
 			}
-			last := hc.H[len(hc.H)-1].Op
 			class := "c12/object-stops-serving"
 			for _, st := range hc.H {
 				if st.Op.K == "reg" && (st.Op.X == "again" || st.Op.X == "victim") {
 					class = "c12/object-stops-serving-after-duplicate-user-id"
 				}
 			}
-			_ = last
+			if h.slowed {
+				class = "c12/object-stops-serving-after-saturation"
+			}
 			fail(class, fmt.Sprintf("after the hostile sequence a fresh client gets no answer from %v within %v (asked twice)", hung, tb),
+				map[string]interface{}{"probe": pr, "other_client_unanswered": unanswered})
+			return
+		}
+		if len(unanswered) > 0 {
+			fail("c12/other-clients-call-not-answered-after-saturation",
+				fmt.Sprintf("calls another client made while the hostile one saturated an object get no answer within %v of the release of the slow method: %v", 2*tb, unanswered),
 				map[string]interface{}{"probe": pr})
 			return
+		}
+		if len(h.midFail) > 0 {
+			hung := []string{}
+			for _, p := range h.midFail {
+				if p.Answer != "reply" {
+					hung = append(hung, p.Target+":"+p.Answer)
+				}
+			}
+			if h.deaf {
+				fail("c12/object-blocked-by-client-that-does-not-read",
+					fmt.Sprintf("while a client that has stopped reading its socket keeps its connection open, a fresh client gets no answer from %v within %v (asked twice); "+
+						"once that connection is closed the objects answer again", hung, tb),
+					map[string]interface{}{"probe_after_disconnect": pr})
+				return
+			}
+			fail("c12/object-stops-serving-while-another-is-slow",
+				fmt.Sprintf("while one object was inside a slow method and flooded, a fresh client got no answer from %v within %v (asked twice)", hung, tb),
+				map[string]interface{}{"probe": pr})
+			return
+		}
+		if h.slowed {
+			saturated++
+		}
+		if removes {
+			// an object is gone, as asked: a new server for the next sequence
+			c.stop()
+			c = nil
 		}
 		if seqNo%500 == 1 {
 			res.Sample(map[string]interface{}{"sequence": hc.H, "hostile_saw": seen, "probe": pr})
@@ -609,6 +931,7 @@ func cmdC12Run(args []string) {
 	})
 	res.Distinct = seqNo
 	res.SetExtra("server_restarts", restarts)
+	res.SetExtra("saturation_sequences", saturated)
 	res.SetExtra("hostile_answers", answers)
 	res.Emit()
 }
